@@ -1,6 +1,8 @@
 import Driver.Sexp
 import Pcore.Model.Rx
 import Pcore.Model.LatticeInst
+import Pcore.Model.TypesLat
+import Driver.Syntax
 /-!
   Shared driver code of the lattice properties C01 C02 C03 C04 C19: parser / printer of type and value terms (the
   syntax is specified in harness/lat/doc.go — the contract between the two sides) and the op table.
@@ -44,7 +46,14 @@ def rngOf (lo hi : Sexp) : Option Rng := do
   let h ← hi.int?
   pure ⟨l, h⟩
 
+/-- `(txt <utf-8 bytes>)`: the type a type EXPRESSION denotes — `Context.ParseType` as the syntax model (C05) has it, then
+    carried over to the lattice terms -/
+def tyOfText (e : Sexp) : Option Ty :=
+  e.bytes?.bind fun bs =>
+    (Pcore.Syntax.parseType (Syn.mkEnv []) (Pcore.Syntax.decodeUtf8 bs)).bind Pcore.Syntax.Ty.toLat
+
 partial def tyOf : Sexp → Option Ty
+  | .list [.atom "txt", s] => tyOfText s
   | .atom "any" => some .any
   | .atom "unit" => some .unit
   | .atom "undef" => some .undef
@@ -248,9 +257,18 @@ def exec : List Sexp → String
     | _, _ => "bad-op"
   | _ => "bad-op"
 
+/-- a `(txt …)` argument whose text is not a type expression of the modelled fragment (the implementation refuses it, or it
+    lies outside the fragment): the op is answered `unbuildable` on both sides -/
+def badText : Sexp → Bool
+  | .list [.atom "txt", s] => (tyOfText s).isNone
+  | _ => false
+
 /-- restrict the shared table to the ops a property uses -/
 def execOnly (ops : List String) : List Sexp → String
-  | .atom op :: rest => if ops.contains op then exec (.atom op :: rest) else "bad-op"
+  | .atom op :: rest =>
+    if !ops.contains op then "bad-op"
+    else if rest.any badText then "unbuildable"
+    else exec (.atom op :: rest)
   | _ => "bad-op"
 
 end Lat
